@@ -103,6 +103,38 @@ ItemAgrees(x, o) ==
                                   /\ x.variants[v].style = o.variants[v].style
                                   /\ FieldsAgree(x.variants[v].fields, o.variants[v].fields)
 
+(* ------------------------------ C08: derives and attributes ------------------------------ *)
+\* root-relative items mentioned in the fields of an item (bit-order marker types are substituted and do not count)
+RECURSIVE MentionedIn(_, _)
+MentionedIn(t, rootname) ==
+  CASE t.k = "path" -> (IF ~t.lead /\ Len(t.segs) >= 2 /\ t.segs[1] = rootname THEN {t.segs} ELSE {}) \cup UNION {MentionedIn(t.args[i], rootname) : i \in DOMAIN t.args}
+    [] t.k = "tup"  -> UNION {MentionedIn(t.elems[i], rootname) : i \in DOMAIN t.elems}
+    [] t.k = "arr"  -> MentionedIn(t.of, rootname)
+    [] OTHER -> {}
+ItemMentions(it, rootname) == UNION {MentionedIn(ItemFieldTys(it)[i], rootname) : i \in DOMAIN ItemFieldTys(it)}
+RECURSIVE ClosureM(_, _, _)
+ClosureM(Root_, frontier, seen) ==
+  IF frontier = {} THEN seen
+  ELSE LET nxt == (UNION {LET it == FindItem(Root_, p) IN IF it.kind = "none" THEN {} ELSE ItemMentions(it, Root_.name) : p \in frontier}) \ seen
+       IN ClosureM(Root_, nxt, seen \cup nxt)
+\* must: closure over the generated module from the root item; may: registry reachability from any id carrying the root path
+MustRoots(S, Root_, path) == {r \in RecRoots(S) : LET rp == <<Root_.name>> \o RootSegs(S, r) IN <<Root_.name>> \o path \in ClosureM(Root_, {rp}, {rp}) /\ FindItem(Root_, rp).kind # "none"}
+MayRoots(reg, S, path) == {r \in RecRoots(S) : \E ir \in {i \in Ids(reg) : Len(Ty(reg, i).path) > 0 /\ PathStr(Ty(reg, i).path) = r} :
+                                                 \E ip \in IdsOfPath(reg, path) : ip \in Reach(reg, ir)}
+CompactAsMust(S, it) == S.has_compact_as /\ it.kind = "struct" /\ Len(RealFields(it.fields)) = 1
+                        /\ RealFields(it.fields)[1].ty \in {PrimTree(S, p) : p \in UnsignedPrims} /\ ~RealFields(it.fields)[1].compact
+CompactAsMay(S, it) == S.has_compact_as /\ it.kind = "struct" /\ Len(RealFields(it.fields)) = 1
+                       /\ Unbox(S, RealFields(it.fields)[1].ty) \in {PrimTree(S, p) : p \in UnsignedPrims}
+C08_ItemOK(reg, S, Root_, path, derives, attrs, it) ==
+  LET ps == PathStr(path)
+      mustD == GlobalDerives(S) \cup SpecificDerives(S, ps) \cup UNION {RecDerives(S, r) : r \in MustRoots(S, Root_, path)}
+               \cup (IF CompactAsMust(S, it) THEN {CompactAsStr(S)} ELSE {})
+      mayD == GlobalDerives(S) \cup SpecificDerives(S, ps) \cup UNION {RecDerives(S, r) : r \in MayRoots(reg, S, path)}
+              \cup (IF CompactAsMay(S, it) THEN {CompactAsStr(S)} ELSE {})
+      mustA == GlobalAttrs(S) \cup SpecificAttrs(S, ps) \cup UNION {RecAttrs(S, r) : r \in MustRoots(S, Root_, path)}
+      mayA == GlobalAttrs(S) \cup SpecificAttrs(S, ps) \cup UNION {RecAttrs(S, r) : r \in MayRoots(reg, S, path)}
+  IN mustD \subseteq derives /\ derives \subseteq mayD /\ mustA \subseteq attrs /\ attrs \subseteq mayA
+
 \* the definitions C05 speaks about in a program: instantiated, no associated-type projections
 C05Defs(P, roots) == {d \in {DefOf(P, a.name) : a \in Insts(P, roots)} : ~HasAssoc(d)}
 =================================================================================
